@@ -987,7 +987,7 @@ impl Check for C19 {
     fn jobs(&self, tier: Tier) -> u64 {
         match tier {
             Tier::Quick => 150,
-            Tier::Thorough => 12_000,
+            Tier::Thorough => 5_000,
         }
     }
     fn budget_s(&self, tier: Tier) -> u64 {
